@@ -131,8 +131,7 @@ struct EncInfo {
     std::string family;    // utf8 | utf16 | other
     bool can(uint32_t cp) {
         if (all) return true;
-        if (cp < 0x80) return true;
-        auto it = cache.find(cp); if (it != cache.end()) return it->second;
+        auto it = cache.find(cp);      // ASCII is asked too: ibm-943 has no backslash and no tilde if (it != cache.end()) return it->second;
         UChar src[2]; int n = 0; if (cp >= 0x10000) { src[n++] = (UChar)(0xD800 + ((cp - 0x10000) >> 10)); src[n++] = (UChar)(0xDC00 + ((cp - 0x10000) & 0x3FF)); } else src[n++] = (UChar)cp;
         char dst[32]; UErrorCode e = U_ZERO_ERROR; ucnv_resetFromUnicode(cnv);
         int32_t len = ucnv_fromUChars(cnv, dst, sizeof dst, src, n, &e);
@@ -142,7 +141,7 @@ struct EncInfo {
     // not representable (ICU, strict), yet the Xerces transcoder the library asks answers "can transcode": best-fit mappings (fullwidth forms
     // to ASCII) and default-ignorable code points (U+00AD, U+202D, ...), which the conversion then replaces or drops without a trace
     bool lossyCan(uint32_t cp) {
-        if (all || cp < 0x80 || !xt || can(cp)) return false;
+        if (all || !xt || can(cp)) return false;
         auto it = cacheFb.find(cp); if (it != cacheFb.end()) return it->second;
         bool ok = false; try { ok = xt->canTranscodeTo(cp); } catch (...) {}
         cacheFb[cp] = ok; return ok;
@@ -166,12 +165,12 @@ inline EncInfo& encInfo(const std::string& name) {
 
 // ------------------------------------------------------------------ classes used in violation signatures: what the serializers branch on
 // (relative to the target encoding and XML version), coarser than the classes above
-enum SCls { S_ASCII, S_LTAMP, S_GT, S_QUOT, S_RSB, S_TAB, S_LF, S_CR, S_C0, S_NUL, S_C1, S_NEL, S_LSEP, S_NONASCII, S_SUPP, S_UNENC, S_SURR, S_NONCHAR, S_LOSSYCAN, S_N };
-static const char* const SCLS_NAME[S_N] = { "ascii", "lt-amp", "gt", "quot", "rsb", "TAB", "LF", "CR", "c0", "nul", "c1", "NEL", "LSEP", "nonascii", "supp", "unencodable", "surrogate", "nonchar", "lossy-can" };
+enum SCls { S_ASCII, S_LTAMP, S_GT, S_QUOT, S_RSB, S_TAB, S_LF, S_CR, S_C0, S_NUL, S_C1, S_NEL, S_LSEP, S_NONASCII, S_SUPP, S_UNENC, S_SURR, S_NONCHAR, S_LOSSYCAN, S_UNENC_ASCII, S_N };
+static const char* const SCLS_NAME[S_N] = { "ascii", "lt-amp", "gt", "quot", "rsb", "TAB", "LF", "CR", "c0", "nul", "c1", "NEL", "LSEP", "nonascii", "supp", "unencodable", "surrogate", "nonchar", "lossy-can", "ascii-unencodable" };
 inline SCls sigClassOf(uint32_t c, EncInfo& enc, bool v11) {
     if (c == 0) return S_NUL; if (c == 9) return S_TAB; if (c == 10) return S_LF; if (c == 13) return S_CR; if (c < 0x20) return S_C0;
     if (c == '<' || c == '&') return S_LTAMP; if (c == '>') return S_GT; if (c == '"' || c == '\'') return S_QUOT; if (c == ']') return S_RSB;
-    if (c < 0x7F) return S_ASCII;
+    if (c < 0x7F) return enc.can(c) ? S_ASCII : S_UNENC_ASCII;      // ibm-943 has no backslash and no tilde
     if (c >= 0xD800 && c <= 0xDFFF) return S_SURR; if (c == 0xFFFE || c == 0xFFFF) return S_NONCHAR;
     if (v11) { if (c == 0x85) return S_NEL; if (c <= 0x9F) return S_C1; if (c == 0x2028) return S_LSEP; }
     if (!enc.can(c)) return enc.lossyCan(c) ? S_LOSSYCAN : S_UNENC;
